@@ -4,6 +4,9 @@ import (
 	"fmt"
 	"strings"
 
+	"golang.org/x/tools/go/ssa"
+
+	"osmolint/internal/ir"
 	"osmolint/internal/rules"
 )
 
@@ -77,7 +80,7 @@ func runC16(c *rules.Ctx) {
 		for i, st := range sets {
 			args := f.CallArgs(st)
 			want := "with:Accumulation(with:Index(zero:Child()," + args[0].String() + ".key),sumtree.Node.accumulate(" + args[1].String() + "))"
-			found := false
+			var matches []ssa.CallInstruction
 			for _, call := range f.Calls() {
 				n := f.CalleeName(call)
 				if n != "sumtree.ptr.updateAccumulation" && n != "sumtree.NewNode" {
@@ -85,8 +88,15 @@ func runC16(c *rules.Ctx) {
 				}
 				for _, a := range f.CallArgs(call) {
 					if strings.Contains(a.String(), want) {
-						found = true
+						matches = append(matches, call)
 					}
+				}
+			}
+			// the report must accompany this very store: it follows it on every path, or precedes (dominates) it
+			found := len(matches) > 0 && c.FollowedBy(f, st, matches)
+			for _, m := range matches {
+				if ir.InstrDominates(m, st) {
+					found = true
 				}
 			}
 			c.Record("M", N+fn, fmt.Sprintf("set-reported#%d", i+1), "the sum reported to the parent for a node is the sum of exactly the node value that was stored (stored = reported) [F9]", found,
